@@ -964,12 +964,25 @@ func runPromql(prop string, args []string) int {
 		for di := 0; di < ndb; di++ {
 			total := prop == "C12" || di%2 == 1
 			db := g.db(total, 1+di%3)
+			if ndb >= 3 && di >= ndb-2 {
+				// the last two databases are directed by the expression (every selector matches something)
+				db = witnessDB(root, di-(ndb-2))
+				rep.hist(fmt.Sprintf("db:witness(total=%v)", db.Total))
+			}
 			results := make([]pqResult, len(nodes))
 			rterms := make([]string, len(nodes))
 			for i, nd := range nodes {
 				results[i] = pqEval(pr.eng, db, nd.String())
 				rterms[i] = coqResult(results[i])
 				rep.hist("result:" + results[i].Kind)
+				// strata of the node-by-node validation of Model/PromSem.v: node kind x (empty | non-empty) engine result
+				if results[i].Kind == "vector" || results[i].Kind == "matrix" {
+					ne := "empty"
+					if len(results[i].Series) > 0 {
+						ne = "non-empty"
+					}
+					rep.hist("sem-validated:" + pqNodeKind(nd) + ":" + ne)
+				}
 			}
 			nontrivial := len(nodes) > 1 && results[0].Kind == "vector" && len(results[0].Series) > 0
 			for range nodes {
@@ -1003,6 +1016,47 @@ func runPromql(prop string, args []string) int {
 	rep.write(filepath.Join(cwd, "report.json"))
 	fmt.Printf("%s: %d expressions, %d node evaluations, %d oracle failures (%d known)\n", prop, id, rep.Evaluations, len(rep.OracleFails), sumKnown(rep.Known))
 	return 0
+}
+
+// pqNodeKind names the local rule of Model/PromSem.v a node is validated against.
+func pqNodeKind(n promParser.Node) string {
+	switch x := n.(type) {
+	case *promParser.VectorSelector:
+		for _, m := range x.LabelMatchers {
+			if m.Type == labels.MatchRegexp || m.Type == labels.MatchNotRegexp {
+				return "selector(regex:inclusion)"
+			}
+		}
+		return "selector"
+	case *promParser.MatrixSelector:
+		return "matrix"
+	case *promParser.SubqueryExpr:
+		return "subquery"
+	case *promParser.ParenExpr:
+		return "paren"
+	case *promParser.UnaryExpr:
+		return "unary"
+	case *promParser.AggregateExpr:
+		mod := "by"
+		if x.Without {
+			mod = "without"
+		} else if len(x.Grouping) == 0 {
+			mod = "all"
+		}
+		return "agg:" + x.Op.String() + ":" + mod
+	case *promParser.Call:
+		return "call:" + x.Func.Name
+	case *promParser.BinaryExpr:
+		if x.VectorMatching == nil || x.LHS.Type() != promParser.ValueTypeVector || x.RHS.Type() != promParser.ValueTypeVector {
+			return "binary-scalar:" + x.Op.String()
+		}
+		m := "ignoring"
+		if x.VectorMatching.On {
+			m = "on"
+		}
+		return "binary:" + x.Op.String() + ":" + x.VectorMatching.Card.String() + ":" + m
+	}
+	return "other"
 }
 
 func sumKnown(m map[string]int) int {
